@@ -2089,7 +2089,9 @@ class Measurement:
             return NotImplemented
 
         measurand = self.measurand * other.measurand
-        uncertainty = self._join_uncertainties(measurand, other)
+        uncertainty = self._join_uncertainties(
+            other, other.measurand.magnitude, self.measurand.magnitude
+        )
         return Measurement(measurand, uncertainty)
 
     __rmul__ = __mul__
@@ -2102,25 +2104,22 @@ class Measurement:
             return NotImplemented
 
         measurand = self.measurand / other.measurand
-        uncertainty = self._join_uncertainties(measurand, other)
+        uncertainty = self._join_uncertainties(
+            other,
+            _div(1, other.measurand.magnitude),
+            _div(measurand.magnitude, other.measurand.magnitude),
+        )
         return Measurement(measurand, uncertainty)
 
-    def _join_uncertainties(self, measurand: Quantity, other: "Measurement") -> float:
+    def _join_uncertainties(
+        self, other: "Measurement", d_self: Numeric, d_other: Numeric
+    ) -> float:
+        """First-order propagation for independent inputs, given the partial
+        derivatives of the result with respect to each operand"""
         return math.sqrt(
-            _mul(
-                _pow(measurand.magnitude, 2),
-                (
-                    _add(
-                        _div(
-                            _pow(self.uncertainty.magnitude, 2),
-                            _pow(self.measurand.magnitude, 2),
-                        ),
-                        _div(
-                            _pow(other.uncertainty.magnitude, 2),
-                            _pow(other.measurand.magnitude, 2),
-                        ),
-                    )
-                ),
+            _add(
+                _pow(_mul(d_self, self.uncertainty.magnitude), 2),
+                _pow(_mul(d_other, other.uncertainty.magnitude), 2),
             )
         )
 
@@ -2138,18 +2137,11 @@ class Measurement:
             return NotImplemented
 
         measurand = self.measurand**exponent
-        uncertainty = math.sqrt(
-            _pow(
-                _mul(
-                    exponent,
-                    _mul(
-                        _pow(self.measurand.magnitude, 2),
-                        self.uncertainty.magnitude,
-                    ),
-                ),
-                2,
-            )
-        )
+        # d(x**n)/dx = n * x**(n-1), which is the constant 0 for n = 0 and 1 for n = 1
+        derivative: Numeric = exponent
+        if exponent not in (0, 1):
+            derivative = _mul(exponent, self.measurand.magnitude ** (exponent - 1))
+        uncertainty = abs(_mul(derivative, self.uncertainty.magnitude))
         return Measurement(measurand, uncertainty)
 
 
